@@ -6,7 +6,9 @@ import itertools
 ID = 'C10'
 HARNESS = {'name': 'c10',
            'sources': ['harness/c10_harness.cpp', 'harness/c10_p1.cpp', 'harness/c10_p2.cpp',
-                       'harness/c10_p3.cpp', 'harness/c10_p4.cpp', 'harness/c10_p5.cpp', 'harness/c10_p6.cpp'],
+                       'harness/c10_p3.cpp', 'harness/c10_p4.cpp', 'harness/c10_p5.cpp', 'harness/c10_p6.cpp',
+                       'harness/c10_p7.cpp', 'harness/c10_p8.cpp', 'harness/c10_p9.cpp', 'harness/c10_p10.cpp',
+                       'harness/c10_p11.cpp'],
            'sanitize': True}
 
 NPOS = 2 ** 64 - 1
@@ -14,7 +16,8 @@ BIGS = [2 ** 64 - 1, 2 ** 64 - 2, 2 ** 63]
 LARGE_CAPS = [4, 5, 8, 10, 30, 254, 255, 256, 300]
 ALL_CAPS = [1, 2, 3, 4, 5, 8, 10, 30, 254, 255, 256, 300]
 
-RULE = ('case = capacity L x initial content of the object and of a second object x list of operations '
+RULE = ('case = capacity L (or pair L/S: the second object is a FixedString<S>) x initial content of the object and of a '
+        'second object x list of operations '
         '(mode A: any argument values). Exhaustive part: L in 1..2 (quick) / 1..3 (thorough), every content over '
         '{a,b} of length 0..L, every modelled operation (90 entry points) with every position/count argument in '
         '0..L+2 and {2^64-1, 2^64-2, 2^63} (third/fourth numeric arguments from a reduced set), source strings of '
@@ -24,7 +27,10 @@ RULE = ('case = capacity L x initial content of the object and of a second objec
         '254..257 and the huge values, sources up to 2L+8 characters (sprintf up to 600). Error path of sprintf: both '
         'ways to make vsnprintf fail (unconvertible wide character; more than INT_MAX characters) after prior content '
         'empty/short/full on every capacity of the harness, inspected right after the call and after a following '
-        'observer/append; a trigger that does not fire on the C library in use is not generated. A case is non-trivial '
+        'observer/append; a trigger that does not fire on the C library in use is not generated. Two capacities: '
+        'every operation that takes the other object with 16 ordered pairs of different capacities from '
+        '{1,2,3,20,30,255,256}, contents empty/short/full on each side and longer than the whole other object, each '
+        'object in its own exact-size heap block. A case is non-trivial '
         'when at least one step is executed by the model (not refused as outside the caller contract).')
 TRUSTED_BASE = [
     'model FixedStr/FsModel.v (+FsBase.v) written by hand from fixed_string.hpp, length_type.hpp and the two iterator '
@@ -186,7 +192,7 @@ def is_mutator(tok):
     return n.split('_')[0] in MUT_FAMILIES
 
 
-def pack(mode, L, init, oinit, ops, reinit, chunk=24):
+def pack(mode, L, init, oinit, ops, reinit, chunk=24):   # L: capacity or 'L/S'
     """cases of [chunk] operations; each one applied to a freshly constructed object when [reinit]"""
     out = []
     cur = []
@@ -195,10 +201,10 @@ def pack(mode, L, init, oinit, ops, reinit, chunk=24):
             cur.append('ctor_c:' + hx(init))
         cur.append(o)
         if len(cur) >= chunk * (2 if reinit else 1):
-            out.append('%s %d %s %s %s' % (mode, L, hx(init), hx(oinit), ' '.join(cur)))
+            out.append('%s %s %s %s %s' % (mode, L, hx(init), hx(oinit), ' '.join(cur)))
             cur = []
     if cur:
-        out.append('%s %d %s %s %s' % (mode, L, hx(init), hx(oinit), ' '.join(cur)))
+        out.append('%s %s %s %s %s' % (mode, L, hx(init), hx(oinit), ' '.join(cur)))
     return out
 
 
@@ -221,6 +227,8 @@ CORPUS_A = [
     'A 10 61626364 - substr:2:18446744073709551614',
     'A 10 616263 - it:3:dec:0',
     'A 10 616263 - rit:3:inc:0',
+    'A 20/3 %s 727272 eq ne' % ('71' * 20),
+    'A 256/30 %s %s ne eq' % ('71' * 256, '72' * 30),
 ]
 CORPUS_D = [
     'D 10 6162 6163 ne eq',
@@ -438,6 +446,70 @@ def gen_sprintf_fail(mode, tier):
     return cases, info
 
 
+# ---------------------------------------------------------------------------------------------------
+# two objects of different capacities (the template overloads taking FixedString< S>)
+
+MIXED_PAIRS = [(1, 3), (3, 1), (2, 20), (20, 2), (3, 20), (20, 3), (3, 30), (30, 3), (20, 255), (255, 20),
+               (30, 256), (256, 30), (255, 256), (256, 255), (3, 256), (256, 3)]
+
+
+def mixed_ops(L, S, mode, big):
+    """every operation that takes the other object, for a pair of capacities"""
+    m = min(L, S)
+    if big:
+        P = [0, 1, m, NPOS]
+        X = [0, S, NPOS]
+    else:
+        P = sorted(set([0, 1, m, S, S + 1, L])) + [NPOS] + ([BIGS[1]] if mode == 'A' else [])
+        X = [0, 1, S, NPOS]
+    mut = ['asg_fs', 'ctor_fs', 'app_fs']
+    obs = ['cmp_fs', 'sw_fs', 'ew_fs', 'ct_fs', 'eq', 'ne']
+    for i in P:
+        mut.append('ins_fs:%s' % nstr(i))
+        for c in P:
+            mut += ['app_fss:%s:%s' % (nstr(i), nstr(c)), 'rep_fs:%s:%s' % (nstr(i), nstr(c))]
+            obs.append('cmpp_fs:%s:%s' % (nstr(i), nstr(c)))
+        for k in X:
+            for c in X:
+                mut.append('ins_fss:%s:%s:%s' % (nstr(i), nstr(k), nstr(c)))
+    P4 = P if not big else [0, m, NPOS]
+    P4 = P4[:5] if len(P4) > 5 else P4
+    for i in P4:
+        for c in P4:
+            for p2 in X:
+                for c2 in X:
+                    mut.append('rep_fss:%s:%s:%s:%s' % (nstr(i), nstr(c), nstr(p2), nstr(c2)))
+                    obs.append('cmppp_fs:%s:%s:%s:%s' % (nstr(i), nstr(c), nstr(p2), nstr(c2)))
+    return mut, obs
+
+
+def gen_mixed(mode, tier):
+    """object and other object of different capacities, both orders; contents empty / short / full on each
+    side, and the left content longer than the whole right object (and vice versa)"""
+    cases = []
+    nops = 0
+    for (L, S) in MIXED_PAIRS:
+        big = max(L, S) > 100
+        mut, obs = mixed_ops(L, S, mode, big)
+        lefts = ['', 'q', 'q' * L] + (['q' * min(L, S + 2)] if L > S + 1 else [])
+        rights = ['', 'r', 'r' * S] + (['q' * (S - 1) + 'r'] if S > 1 else [])
+        if big and tier == 'quick':
+            lefts = lefts[1:]
+            rights = rights[1:]
+        cap = '%d/%d' % (L, S)
+        for a in dict.fromkeys(lefts):
+            for b in dict.fromkeys(rights):
+                cs = pack(mode, cap, a, b, mut, True, chunk=24 if not big else 12)
+                cs += pack(mode, cap, a, b, obs, False, chunk=48 if not big else 24)
+                cases += cs
+                nops += len(mut) + len(obs)
+    info = ['two objects of different capacities %s (object/other, both orders): %d cases, %d operations taking the '
+            'other object (assign, converting constructor, insert, append, replace, compare, starts_with, ends_with, '
+            'contains, ==, !=) x contents empty/short/full on each side and longer than the other whole object'
+            % (['%d/%d' % p for p in MIXED_PAIRS], len(cases), nops)]
+    return cases, info
+
+
 def gen_cases(tier, rng):
     quick = tier == 'quick'
     caps = [1, 2] if quick else [1, 2, 3]
@@ -449,6 +521,9 @@ def gen_cases(tier, rng):
     cases += gen_random('A', rng, nrand)
     fail_cases, fail_info = gen_sprintf_fail('A', tier)
     cases += fail_cases
+    mixed_cases, mixed_info = gen_mixed('A', tier)
+    cases += mixed_cases
+    fail_info = fail_info + mixed_info
     return {'cases': cases, 'exhaustive': True,
             'scopes': ['exhaustive: L in %s, all contents over {a,b}, every operation with positions/counts in 0..L+2 and '
                        '{2^64-1, 2^64-2, 2^63}, sources of length 0..L+2 (24 operations per case, each on a freshly '
@@ -564,8 +639,9 @@ def shrink(case):
 
 
 CLAIM = {
-    'text': 'Coq theorems (Properties_C10.v) over an executable model of FixedString<L>: for every capacity 1 <= L < 2^64-1, '
-            'every pair of well-formed objects, every one of the 90 modelled entry points (all mutators incl. the error path of sprintf, all '
+    'text': 'Coq theorems (Properties_C10.v) over an executable model of FixedString<L>: for every two capacities 1 <= L, Lo < '
+            '2^64-1 (object / other object, independent), every pair of well-formed objects, every one of the 91 modelled entry points (all mutators incl. the error path of sprintf and the '
+            'converting constructor, all '
             'observers incl. the 30 find overloads, both traversal directions and single iterator steps) and all size_t argument values - positions and counts up to '
             '2^64-1 - the operation returns normally, no access leaves the object, its source arguments or the destination of '
             'copy(), and the object is well-formed afterwards (L+1 bytes, length <= L, terminator at the length, '
@@ -577,7 +653,8 @@ CLAIM = {
             'run), the harness. Not modelled (neither proved nor run): operator[] / operator- / relational operators of the '
             'iterator classes, postfix ++/--, insert(const_iterator, initializer_list), the six iterator overloads of replace(), '
             'operator+= / operator= overloads that only forward to append()/assign(), operator<<, data(), operator[] '
-            '(documented as unchecked); template overloads taking FixedString<S> are run with S = L only. The caller contract '
+            '(documented as unchecked); template overloads taking FixedString<S> are run with S = L and with 16 '
+            'ordered pairs S != L, and proved for all pairs. The caller contract '
             '(ASSUMPTIONS) is part of the statement.',
     'technique': 'Coq proof (invariant preservation and absence of Fault for checked buffer primitives, 2^64 wrap-around '
                  'arithmetic, induction over histories); model/implementation correspondence with exhaustive small scopes',
